@@ -58,5 +58,10 @@ func c08Worker(ctx *core.Ctx) *core.Result {
 	x.runSpaces(iosSpaces(ctx))
 	x.runChain("ASA", ctx)
 	x.runChain("IOS", ctx)
+	for _, f := range c08Extra {
+		f(ctx, x.res)
+	}
 	return x.res
 }
+
+var c08Extra []func(ctx *core.Ctx, res *core.Result)
